@@ -272,6 +272,9 @@ class Goebner:
         assert agg.ast_type == ASTType.BodyAggregate
         if agg.left_guard is None:  # an aggregate without guards is left alone
             return None
+        if agg.function == AggregateFunction.Count:
+            # the first tuple term of a #count is no weight (other traits emit #count after normalisation)
+            return None
         ret = []
         if neg and agg.right_guard:  # don't create a disjunction in case of 2 boundaries negated
             return None
